@@ -6,8 +6,10 @@ SPEC = {
     'lean_modules': ['N2k.Props.Consts.C01', 'N2k.Props.C01'], 'props_files': ['N2k/Props/Consts/C01.lean', 'N2k/Props/C01.lean'],
     'translators': ['constants', 'pgn_tables'],
     'case_start': ['reset', 'reset0'],
-    'trusted_base': ["PGN classification tables are REGENERATED from src/NMEA2000.cpp on every run (tools/translators/pgn_tables.py, "
-                     "regex over g++ -E output) and the classification theorems are re-proved against them by decide +kernel",
+    'trusted_base': ["PGN classification tables are REGENERATED from src/NMEA2000.cpp on every run (tools/translators/pgn_tables.py: the "
+                     "translation unit is compiled with a sweeping main and each classification function is EXECUTED on all 2^18 PGNs, the "
+                     "arrays read to their terminator; a regex reading of g++ -E output is the cross-check) and the classification "
+                     "theorems are re-proved against them by decide +kernel",
                      "frozen specification: lean/N2k/Spec/J1939.lean (identifier, fast-packet format, receiver reassembly) and "
                      "/verif/spec/fast_packet_pgns.txt (NMEA 2000 fast-packet PGN list)",
                      "model N2k/Model/Send.lean transcribes N2ktoCanID, SendMsg (dm_None, open node), GetSequenceCounter, "
@@ -25,7 +27,8 @@ MANIFEST = {
             "SendMsg behind a mock driver vs the model on generated sends (id sweep over the PGN space, all lengths, PGN classes, "
             "1..9 devices, declared lists) plus an independent reference encoder.",
     'design_ref': 'DESIGN.md section 4, C01',
-    'note': "Trusted: Lean kernel; table translator (regex) cross-checked by the differential run; frozen spec tables; hand model "
-            "validated by differential runs; slot availability for declared PGNs is a hypothesis of C01_sequence_first (a free "
-            "slot exists), the counting argument that one always exists is not proved.",
+    'note': "Trusted: Lean kernel; table translator (execution of the source's own functions over all PGNs) cross-checked by a textual "
+            "reading and by the differential run; frozen spec tables; hand model validated by differential runs. Slot availability "
+            "for declared PGNs is proved (pigeonhole over the slot invariant: C01_sequence_declared, C01_sequence_fresh); an "
+            "undeclared PGN shares the common slot, for which only 'some id 0..7' is claimed.",
 }
